@@ -194,7 +194,7 @@ pub fn record(output: &str) {
     let n = if thorough() { 200_000 } else { 20_000 };
     let nm = |x: f64| -> i64 { if x.is_finite() { (x * 1e9).round().min(2e9) as i64 } else { 2_000_000_000 } };
     for k in 0..n {
-        let class = robots::GEOMETRY_CLASSES[k % robots::GEOMETRY_CLASSES.len()];
+        let class = if k % 13 == 12 { robots::FK_ONLY_CLASSES[(k / 13) % 2] } else { robots::GEOMETRY_CLASSES[k % robots::GEOMETRY_CLASSES.len()] };
         let p = if k % 11 == 10 { robots::named_robots()[k % 6].1 } else { robots::geometry(class, &mut r) };
         let oc = ["zero", "quarter", "random"][k % 3];
         let mut p = robots::convention(p, (k / 3) % 64, oc, &mut r);
